@@ -284,3 +284,4 @@ def run(ctx):
     ctx.run(d2_decimation)
     ctx.run(d3_metadata)
     ctx.run(d4_sync_not_tapered)
+    ctx.run(np2.window_state_rule, "D5")
